@@ -26,6 +26,7 @@ mod p15;
 mod p14b;
 mod p17;
 mod p13;
+mod peq;
 // MODULES (keep this list and the two dispatch tables below in sync)
 
 use std::io::{self, BufRead, Write, BufWriter};
@@ -50,6 +51,7 @@ pub fn dispatch_exec(op: &str, a: &[i64]) -> Option<String> {
   if let Some(r) = p14b::exec(op, a) { return r; }
   if let Some(r) = p17::exec(op, a) { return r; }
   if let Some(r) = p13::exec(op, a) { return r; }
+  if let Some(r) = peq::exec(op, a) { return r; }
   // DISPATCH-EXEC
   Some("bad-op".to_string())
 }
